@@ -76,7 +76,7 @@ const SHIM_METHODS: [&str; 34] = [
 ];
 
 // path calls renamed to free shim functions
-const SHIM_PATHS: [(&str, &str); 11] = [
+const SHIM_PATHS: [(&str, &str); 12] = [
     ("metadata", "rws_metadata"),
     ("File::open", "rws_file_open"),
     ("IpAddr::from_str", "rws_ipaddr_from_str"),
@@ -84,6 +84,7 @@ const SHIM_PATHS: [(&str, &str); 11] = [
     ("env::var", "rws_env_var"),
     ("env::current_dir", "rws_env_current_dir"),
     ("String::from_utf8", "rws_string_from_utf8"),
+    ("String::from_utf8_lossy", "rws_string_from_utf8_lossy"),
     ("Vec::from", "rws_vec_from"),
     ("io::Cursor::new", "rws_cursor_new"),
     ("Cursor::new", "rws_cursor_new"),
